@@ -525,8 +525,12 @@ theorem deleteAttributeBody_sat {c : Ctx} (hc : RealRules c) (v : Nat) : Sat (de
     refine Sat.bind (Sat.triv _) (fun _ _ => ?_)
     exact Sat.pure (fun cur h => hcu cur h)
 
+/-- every payload reader returns a payload satisfying `Q` (under the version it was read with) -/
+def PayloadSat (Q : Nat → Payload → Prop) : Prop := ∀ op v, Sat (payloadBody op v) (Q v)
+
 /-- **every payload the decoder returns satisfies the decoder's part of well-typedness** -/
-theorem payloadBody_sat {c : Ctx} (hc : RealRules c) (op v : Nat) : Sat (payloadBody op v) (PayloadOkD c v) := by
+theorem payloadBody_sat {c : Ctx} (hc : RealRules c) : PayloadSat (PayloadOkD c) := by
+  intro op v
   unfold payloadBody
   refine Sat.ite (fun _ => createBody_sat hc v) (fun _ => ?_)
   refine Sat.ite (fun _ => createKeyPairBody_sat hc v) (fun _ => ?_)
@@ -551,13 +555,63 @@ theorem payloadBody_sat {c : Ctx} (hc : RealRules c) (op v : Nat) : Sat (payload
   refine Sat.ite (fun _ => deleteAttributeBody_sat hc v) (fun _ => ?_)
   refine Sat.ite (fun _ => Sat.fail _) (fun _ => Sat.fail _)
 
+/-! ### Register: the secret is parsed according to the announced object type -/
+
+theorem regOfKB_otype {ot : Nat} {st : Option Nat} {kb : KB} {o : RegObj} (h : regOfKB ot st kb = .ok o) :
+    o.otype = ot := by
+  unfold regOfKB at h
+  split at h <;> first | (cases h; rfl) | cases h
+
+macro "sat_otype" : tactic =>
+  `(tactic| repeat' (first
+      | exact Sat.fail _
+      | exact Sat.pure rfl
+      | exact lift_sat (fun _ h => regOfKB_otype h)
+      | (refine Sat.ite (fun _ => ?_) (fun _ => ?_))
+      | (refine Sat.bind (Sat.triv _) (fun _ _ => ?_))))
+
+theorem secretReader_otype {ot tag : Nat} {rd : TItem → D RegObj} (h : secretReader ot = some (tag, rd)) (i : TItem) :
+    DSat (rd i) (fun o => o.otype = ot) := by
+  unfold secretReader at h
+  split at h
+  · rename_i h1; subst h1; cases h; refine inStruct_dsat ?_ i; sat_otype
+  · split at h
+    · cases h; refine inStruct_dsat ?_ i; sat_otype
+    · split at h
+      · rename_i h1; subst h1; cases h; refine inStruct_dsat ?_ i; sat_otype
+      · split at h
+        · rename_i h1; subst h1; cases h; refine inStruct_dsat ?_ i; sat_otype
+        · split at h
+          · rename_i h1; subst h1; cases h; refine inStruct_dsat ?_ i; sat_otype
+          · split at h
+            · rename_i h1; subst h1; cases h; refine inStruct_dsat ?_ i; sat_otype
+            · cases h
+
+/-- the managed object of a decoded Register has the announced object type -/
+def RegisterTyped : Payload → Prop
+  | .register ot _ (some o) => o.otype = ot
+  | _ => True
+
+theorem registerBody_typed (v : Nat) : Sat (registerBody v) RegisterTyped := by
+  unfold registerBody
+  refine Sat.bind (Sat.triv _) (fun ot _ => ?_)
+  refine Sat.bind (Sat.triv _) (fun t _ => ?_)
+  split
+  · exact Sat.fail _
+  · rename_i tag rd hsr
+    refine Sat.bind (req_sat (secretReader_otype hsr)) (fun o ho => ?_)
+    refine Sat.bind (Sat.triv _) (fun _ _ => ?_)
+    refine Sat.bind (Sat.triv _) (fun _ _ => ?_)
+    exact Sat.pure ho
+
 /-! ### batch items and the message -/
 
-/-- an item is only ever decoded under a known version, and its payload is then well typed for that version -/
-def ItemOkD (c : Ctx) (ver : Option Nat) (it : Kmip.Item) : Prop := ∃ v, ver = some v ∧ 10 ≤ v ∧ PayloadOkD c v it.payload
+/-- an item is only ever decoded under a known version, and its payload then satisfies `Q` for that version -/
+def ItemOk (Q : Nat → Payload → Prop) (ver : Option Nat) (it : Kmip.Item) : Prop :=
+  ∃ v, ver = some v ∧ 10 ≤ v ∧ Q v it.payload
 
-theorem batchItemBody_sat {c : Ctx} (hc : RealRules c) (ver : Option Nat) (hver : ∀ v, ver = some v → 10 ≤ v) :
-    Sat (batchItemBody ver) (ItemOkD c ver) := by
+theorem batchItemBody_sat {Q : Nat → Payload → Prop} (hq : PayloadSat Q) (ver : Option Nat)
+    (hver : ∀ v, ver = some v → 10 ≤ v) : Sat (batchItemBody ver) (ItemOk Q ver) := by
   unfold batchItemBody
   refine Sat.bind (Sat.triv _) (fun op _ => ?_)
   split
@@ -566,21 +620,22 @@ theorem batchItemBody_sat {c : Ctx} (hc : RealRules c) (ver : Option Nat) (hver 
     refine Sat.ite (fun _ => ?_) (fun _ => ?_)
     · refine Sat.bind (Sat.triv _) (fun _ _ => ?_)
       refine Sat.bind (Sat.triv _) (fun bid _ => ?_)
-      refine Sat.bind (req_sat (fun i => inStruct_dsat (payloadBody_sat hc op v) i)) (fun p hp => ?_)
+      refine Sat.bind (req_sat (fun i => inStruct_dsat (hq op v) i)) (fun p hp => ?_)
       refine Sat.bind (Sat.triv _) (fun _ _ => ?_)
       refine Sat.bind (Sat.triv _) (fun _ _ => ?_)
       refine Sat.bind (Sat.triv _) (fun b _ => ?_)
       exact Sat.pure ⟨v, rfl, hver v rfl, hp⟩
     · refine Sat.bind (Sat.triv _) (fun bid _ => ?_)
-      refine Sat.bind (req_sat (fun i => inStruct_dsat (payloadBody_sat hc op v) i)) (fun p hp => ?_)
+      refine Sat.bind (req_sat (fun i => inStruct_dsat (hq op v) i)) (fun p hp => ?_)
       refine Sat.bind (Sat.triv _) (fun _ _ => ?_)
       refine Sat.bind (Sat.triv _) (fun _ _ => ?_)
       refine Sat.bind (Sat.triv _) (fun b _ => ?_)
       exact Sat.pure ⟨v, rfl, hver v rfl, hp⟩
 
-theorem takeItems_ok {c : Ctx} (hc : RealRules c) (ver : Option Nat) (hver : ∀ v, ver = some v → 10 ≤ v) :
+theorem takeItems_ok {Q : Nat → Payload → Prop} (hq : PayloadSat Q) (ver : Option Nat)
+    (hver : ∀ v, ver = some v → 10 ≤ v) :
     ∀ (n : Nat) (l : List TItem) (items : List Kmip.Item), takeItems ver n l = .ok items →
-      ∀ it ∈ items, ItemOkD c ver it := by
+      ∀ it ∈ items, ItemOk Q ver it := by
   intro n
   induction n with
   | zero => intro l items h; unfold takeItems at h; cases h; intro it hit; cases hit
@@ -603,9 +658,36 @@ theorem takeItems_ok {c : Ctx} (hc : RealRules c) (ver : Option Nat) (hver : ∀
             cases h
             intro it hit
             rcases List.mem_cons.mp hit with rfl | hit
-            · exact inStruct_dsat (batchItemBody_sat hc ver hver) i it hb
+            · exact inStruct_dsat (batchItemBody_sat hq ver hver) i it hb
             · exact ih rest xs hr it hit
       · cases h
+
+/-- Register's secret has the announced type; every other payload trivially so -/
+theorem payloadBody_registerTyped : PayloadSat (fun _ => RegisterTyped) := by
+  intro op v
+  unfold payloadBody
+  refine Sat.ite (fun _ => by unfold createBody; sat_triv) (fun _ => ?_)
+  refine Sat.ite (fun _ => by unfold createKeyPairBody; sat_triv) (fun _ => ?_)
+  refine Sat.ite (fun _ => registerBody_typed v) (fun _ => ?_)
+  refine Sat.ite (fun _ => by unfold deriveKeyBody; sat_triv) (fun _ => ?_)
+  refine Sat.ite (fun _ => by unfold locateBody; sat_triv) (fun _ => ?_)
+  refine Sat.ite (fun _ => by unfold getBody; sat_triv) (fun _ => ?_)
+  refine Sat.ite (fun _ => by unfold getAttributesBody; sat_triv) (fun _ => ?_)
+  refine Sat.ite (fun _ => by unfold getAttributeListBody; sat_triv) (fun _ => ?_)
+  refine Sat.ite (fun _ => by unfold activateBody; sat_triv) (fun _ => ?_)
+  refine Sat.ite (fun _ => by unfold revokeBody; sat_triv) (fun _ => ?_)
+  refine Sat.ite (fun _ => by unfold destroyBody; sat_triv) (fun _ => ?_)
+  refine Sat.ite (fun _ => by unfold queryBody; sat_triv) (fun _ => ?_)
+  refine Sat.ite (fun _ => by unfold discoverVersionsBody; sat_triv) (fun _ => ?_)
+  refine Sat.ite (fun _ => by unfold encryptBody; sat_triv) (fun _ => ?_)
+  refine Sat.ite (fun _ => by unfold decryptBody; sat_triv) (fun _ => ?_)
+  refine Sat.ite (fun _ => by unfold signBody; sat_triv) (fun _ => ?_)
+  refine Sat.ite (fun _ => by unfold signatureVerifyBody; sat_triv) (fun _ => ?_)
+  refine Sat.ite (fun _ => by unfold macBody; sat_triv) (fun _ => ?_)
+  refine Sat.ite (fun _ => by unfold setAttributeBody; sat_triv) (fun _ => ?_)
+  refine Sat.ite (fun _ => by unfold modifyAttributeBody; sat_triv) (fun _ => ?_)
+  refine Sat.ite (fun _ => by unfold deleteAttributeBody; sat_triv) (fun _ => ?_)
+  refine Sat.ite (fun _ => Sat.fail _) (fun _ => Sat.fail _)
 
 theorem kmipVersion_ge (p : Int × Int) (v : Nat) (h : kmipVersion p = some v) : 10 ≤ v := by
   unfold kmipVersion at h
